@@ -165,6 +165,23 @@ func (c *scriptPC) SetDeadline(time.Time) error               { return nil }
 func (c *scriptPC) SetReadDeadline(time.Time) error           { return nil }
 func (c *scriptPC) SetWriteDeadline(time.Time) error          { return nil }
 
+// unixStreamConn: a stream connection that also satisfies net.PacketConn, as *net.UnixConn does for network "unix"
+type unixStreamConn struct{ *chunkConn }
+
+func (c *unixStreamConn) LocalAddr() net.Addr { return &net.UnixAddr{Name: "/verif.sock", Net: "unix"} }
+func (c *unixStreamConn) ReadFrom(p []byte) (int, net.Addr, error) {
+	n, err := c.Read(p)
+	return n, c.LocalAddr(), err
+}
+func (c *unixStreamConn) WriteTo(p []byte, _ net.Addr) (int, error) { return c.Write(p) }
+
+// unixgramConn: a datagram socket of the unix domain
+type unixgramConn struct{ *scriptPC }
+
+func (c *unixgramConn) LocalAddr() net.Addr {
+	return &net.UnixAddr{Name: "/verif.sock", Net: "unixgram"}
+}
+
 func replyWithID(id uint16, tag int) []byte {
 	m := new(dns.Msg)
 	m.SetQuestion(fmt.Sprintf("r%d.example.", tag), dns.TypeA)
@@ -296,9 +313,31 @@ func runC12(c *Ctx) {
 			}
 		}
 		c.Op("id-stream", fmt.Sprintf("xchg.stream %d %s", qid, strings.Join(sargs, " ")), got, k > 0)
+		// unix-domain sockets satisfy net.PacketConn whatever their kind: a "unix" stream socket must behave as a
+		// stream (framing, ErrId), a "unixgram" socket as a datagram socket (foreign IDs skipped)
+		if i%4 == 0 {
+			uc := &unixStreamConn{chunkConn: &chunkConn{chunks: randomChunks(r, stream)}}
+			rm, _, err = cl.ExchangeWithConn(q.Copy(), &dns.Conn{Conn: uc})
+			got = "err"
+			if err == nil && rm != nil {
+				got = fmt.Sprintf("ok %d", rm.Id)
+			} else if errors.Is(err, dns.ErrId) {
+				got = "errId"
+			}
+			c.OpK("id-unix-stream", fmt.Sprintf("xchg.stream %d %s", qid, strings.Join(sargs, " ")), got, k > 0, "id-unix-stream")
+			ug := &unixgramConn{scriptPC: &scriptPC{in: append([][]byte{}, script...)}}
+			rm, _, err = cl.ExchangeWithConn(q.Copy(), &dns.Conn{Conn: ug})
+			got = "err"
+			if err == nil && rm != nil {
+				got = fmt.Sprintf("ok %d", rm.Id)
+			}
+			c.OpK("id-unixgram", fmt.Sprintf("xchg.dgram %d %s", qid, strings.Join(args, " ")), got, k > 1, "id-unixgram")
+		}
 	}
 	// 3. concurrent clients against real servers: each handler sees its own request, each client its own reply
 	c12BufferReuse(c, r)
+	c12IgnoredThenQueries(c, r, "udp")
+	c12IgnoredThenQueries(c, r, "pc")
 	c12Concurrent(c, r, "udp")
 	c12Concurrent(c, r, "tcp")
 	// 4. a TCP server reading requests cut at every offset (incl. inside the length prefix)
@@ -430,6 +469,103 @@ func c12BufferReuse(c *Ctx, r *Rng) {
 	c.Pred("udp-buffer-reuse", "request-stable-while-handled", fmt.Sprintf("%d held requests, 6 others received meanwhile", held), changed == 0 && held > 0,
 		fmt.Sprint(changed, " of ", held, " held requests changed"), "0", true)
 	c.Res.Evaluations += rounds * 7
+}
+
+// c12IgnoredThenQueries: datagrams the server ignores or rejects (a stray response, an unsupported opcode, a bad
+// question count) go back to the receive-buffer pool; the ordinary queries that follow are read into those buffers
+// and must reach their handler whole and be answered with their own reply.
+func c12IgnoredThenQueries(c *Ctx, r *Rng, kind string) {
+	h := dns.HandlerFunc(func(w dns.ResponseWriter, req *dns.Msg) {
+		m := new(dns.Msg)
+		m.SetReply(req)
+		// what the handler saw: packed size and the text of the request
+		b, _ := req.Pack()
+		m.Answer = []dns.RR{&dns.TXT{Hdr: dns.RR_Header{Name: "seen.example.", Rrtype: dns.TypeTXT, Class: 1}, Txt: []string{fmt.Sprintf("%d %x", len(b), b[:min(len(b), 200)])}}}
+		w.WriteMsg(m)
+	})
+	pc, err := net.ListenPacket("udp", "127.0.0.1:0")
+	if err != nil {
+		c.Res.Notes = append(c.Res.Notes, "loopback udp not available: "+err.Error())
+		return
+	}
+	srv := &dns.Server{Handler: h, UDPSize: 1232, ReadTimeout: 2 * time.Second}
+	if kind == "pc" {
+		srv.PacketConn = &wrapPC{PacketConn: pc}
+	} else {
+		srv.PacketConn = pc
+	}
+	started := make(chan struct{})
+	srv.NotifyStartedFunc = func() { close(started) }
+	go srv.ActivateAndServe()
+	<-started
+	defer srv.Shutdown()
+	conn, err := net.Dial("udp", pc.LocalAddr().String())
+	if err != nil {
+		return
+	}
+	defer conn.Close()
+	rounds := c.Scale(60, 2000)
+	bad, total := 0, 0
+	first := ""
+	for i := 0; i < rounds; i++ {
+		// a burst of datagrams that never reach a handler
+		for k := 0; k < 1+r.Intn(4); k++ {
+			var d []byte
+			switch r.Intn(4) {
+			case 0: // a stray 12-octet response
+				d = buildMsgWire(uint16(r.U64()), 0x8000, nil, nil, nil, nil)
+			case 1: // unsupported opcode (UPDATE = 5): NOTIMP
+				d = buildMsgWire(uint16(r.U64()), 5<<11, nil, nil, nil, nil)
+			case 2: // QDCOUNT 0 in a query: FORMERR
+				d = buildMsgWire(uint16(r.U64()), 0, nil, nil, nil, nil)
+			default: // shorter than a header
+				d = r.Bytes(1 + r.Intn(11))
+			}
+			conn.Write(d)
+		}
+		// the rejected ones are answered: drain what arrives before the real queries
+		conn.SetReadDeadline(time.Now().Add(30 * time.Millisecond))
+		buf := make([]byte, 4096)
+		for {
+			if _, err := conn.Read(buf); err != nil {
+				break
+			}
+		}
+		for k := 0; k < 3; k++ {
+			q := new(dns.Msg)
+			q.SetQuestion(fmt.Sprintf("q%d-%d.%s.example.", i, k, strings.Repeat("x", 1+r.Intn(40))), dns.TypeTXT)
+			q.Id = uint16(1 + i*4 + k)
+			if r.Bool() {
+				q.SetEdns0(1232, true)
+			}
+			qb, _ := q.Pack()
+			conn.Write(qb)
+			conn.SetReadDeadline(time.Now().Add(2 * time.Second))
+			n, err := conn.Read(buf)
+			total++
+			got := "no reply"
+			want := fmt.Sprintf("%d %x", len(qb), qb[:min(len(qb), 200)])
+			if err == nil {
+				var rm dns.Msg
+				if e := rm.Unpack(buf[:n]); e != nil {
+					got = "undecodable reply"
+				} else if rm.Id != q.Id || rm.Rcode != dns.RcodeSuccess || len(rm.Question) != 1 || rm.Question[0].Name != q.Question[0].Name || len(rm.Answer) != 1 {
+					got = fmt.Sprintf("id=%d rcode=%d questions=%d answers=%d", rm.Id, rm.Rcode, len(rm.Question), len(rm.Answer))
+				} else {
+					got = strings.Join(rm.Answer[0].(*dns.TXT).Txt, "")
+				}
+			}
+			if got != want {
+				bad++
+				if first == "" {
+					first = fmt.Sprintf("query %x: handler saw / client got %q, want %q", qb, got, want)
+				}
+			}
+		}
+	}
+	c.Pred("udp-ignored-then-queries:"+kind, "request-whole-after-ignored-datagrams", fmt.Sprintf("%d queries after ignored / rejected datagrams", total), bad == 0,
+		fmt.Sprintf("%d of %d mangled; %s", bad, total, first), "each query reaches its handler whole and gets its own reply", true)
+	c.Res.Evaluations += total
 }
 
 func c12Concurrent(c *Ctx, r *Rng, network string) {
